@@ -19,7 +19,8 @@ from odl.set import ComplexNumbers, RealNumbers
 from odl.space import ProductSpace, tensor_space
 from odl.space.base_tensors import TensorSpace
 from odl.space.weighting import ArrayWeighting
-from odl.util import dtype_repr, indent, signature_string, writable_array
+from odl.util import (
+    dtype_repr, indent, is_real_dtype, signature_string, writable_array)
 
 __all__ = ('PointwiseNorm', 'PointwiseInner', 'PointwiseSum', 'MatrixOperator',
            'SamplingOperator', 'WeightedSumSamplingOperator',
@@ -1333,8 +1334,15 @@ class WeightedSumSamplingOperator(Operator):
 
     def _call(self, x):
         """Sum all values if indices are given multiple times."""
-        y = np.bincount(self._indices_flat, weights=x,
-                        minlength=self.range.size)
+        if is_real_dtype(self.range.dtype):
+            y = np.bincount(self._indices_flat, weights=x,
+                            minlength=self.range.size)
+        else:
+            # `bincount` only sums real weights
+            y = (np.bincount(self._indices_flat, weights=x.real,
+                             minlength=self.range.size) +
+                 1j * np.bincount(self._indices_flat, weights=x.imag,
+                                  minlength=self.range.size))
 
         out = y.reshape(self.range.shape)
 
